@@ -46,7 +46,7 @@ StepReset(e) ==
 
 \* a group value: its hash, and the hash of its chain info once it has a key
 StepGroup(e) ==
-  /\ e.ev = "Step" /\ scen.fam = "group"
+  /\ e.ev = "Step" /\ scen.fam \in {"group", "groupseq"}
   /\ LET tG == GroupHash(e.v)
          viaOK == e.a.name = "via" /\ e.perr = ""
          newG == {<<tG, e.gh, "direct">>} \cup (IF viaOK THEN {<<tG, e.pgh, e.a.path>>} ELSE {})
@@ -62,9 +62,10 @@ StepGroup(e) ==
 
 \* a standalone chain info
 StepChain(e) ==
-  /\ e.ev = "Step" /\ scen.fam = "chain"
+  /\ e.ev = "Step" /\ scen.fam \in {"chain", "chainseq"}
   /\ LET tC == ChainHash(ChainOfInfo(e.v))
          newC == {<<tC, e.ch, "direct">>} \cup (IF e.a.name = "via" /\ e.perr = "" THEN {<<tC, e.pch, e.a.path>>} ELSE {})
+                 \cup (IF e.a.name = "toproto" THEN {<<tC, e.pch, "toproto-declared">>} ELSE {})
          A1 == UNION {Check(seenC \cup (newC \ {n}), ChainFieldNames, "chain", n[1], n[2], n[3], e) : n \in newC}
          A2 == IF e.a.name = "via" /\ e.perr # "" THEN {Alarm("Conformance", e, "chain", {}, <<e.a.path, e.perr>>)} ELSE {}
          tampered == [e.v EXCEPT ![e.a.field] = e.a.nv]
@@ -77,8 +78,17 @@ StepChain(e) ==
                  THEN {Alarm("Conformance", e, "chain", {e.a.field},
                              <<e.a.path, IF e.a.strip THEN "rejected although no hash is embedded"
                                          ELSE "rejected although the hash still matches">>)} ELSE {}
+         \* sequence family: a document (fields fv, declaring the hash of dv) decoded INTO the live value
+         dec == e.a.name = "decode"
+         A5 == IF dec /\ e.a.decl # "none" /\ ~Mon_TamperRejected(e.a.dv, e.a.fv, e.accepted)
+                 THEN {Alarm("Mon_TamperRejected", e, "chain", Diff(ChainFieldNames, ChainHash(ChainOfInfo(e.a.dv)), ChainHash(ChainOfInfo(e.a.fv))),
+                             <<e.a.path, "accepted">>)} ELSE {}
+         A6 == IF dec /\ e.a.decl # "none" /\ ~Mon_DecodedHashIsDeclared(e.accepted, e.dh, e.ch)
+                 THEN {Alarm("Mon_DecodedHashIsDeclared", e, "chain", {}, <<e.a.path, e.a.decl>>)} ELSE {}
+         A7 == IF dec /\ e.accepted # e.a.accept /\ A5 = {}
+                 THEN {Alarm("Conformance", e, "chain", {}, <<e.a.path, "a document that declares no hash or the hash of its fields was rejected">>)} ELSE {}
      IN /\ seenC' = seenC \cup newC /\ seenG' = seenG
-        /\ alarms' = alarms \cup A1 \cup A2 \cup A3 \cup A4
+        /\ alarms' = alarms \cup A1 \cup A2 \cup A3 \cup A4 \cup A5 \cup A6 \cup A7
   /\ val' = e.v /\ act' = e.a /\ prev' = val /\ scen' = scen
 
 TraceNext ==
